@@ -134,9 +134,9 @@ CHECKS = {
     ),
     'C16': dict(
         level='exploration',
-        units=[U('^TestC16_Stores$', (7, 2500), (8, 25000)), U('^TestC16_Sketch$', (7, 2000), (8, 20000))],
-        essential_labels=['level:store', 'level:sketch', 'kind:dense', 'kind:sparse', 'kind:paginated', 'kind:collow', 'kind:colhigh', 'w<1', 'w>1', 'w=1', 'paginated-buffer-and-pages-at-reweight', 'collapsed-at-reweight', 'both-sides', 'zero-bucket', 'variant:exact'],
-        assumptions=COMMON_ASSUMPTIONS + ["dyadic factors only (w in {2^k, 3, 1.5, 0.75, 5}) so that scaled weights stay exact"],
+        units=[U('^TestC16_Stores$', (7, 2500), (8, 25000)), U('^TestC16_Sketch$', (7, 2000), (8, 20000)), U('^TestC16_ArbitraryFactor$', (2, 15000), (4, 300000))],
+        essential_labels=['level:store', 'level:sketch', 'kind:dense', 'kind:sparse', 'kind:paginated', 'kind:collow', 'kind:colhigh', 'w<1', 'w>1', 'w=1', 'paginated-buffer-and-pages-at-reweight', 'collapsed-at-reweight', 'both-sides', 'zero-bucket', 'variant:exact', 'arbitrary-factor', 'factor-in-(1,1.2)'],
+        assumptions=COMMON_ASSUMPTIONS + ["bit-for-bit comparisons use dyadic factors only (w in {2^k, 3, 1.5, 0.75, 5}) so that scaled weights stay exact; arbitrary factors and weights are judged bin by bin within 4 ulps per contribution/factor (TestC16_ArbitraryFactor)"],
     ),
     'C17': dict(
         level='exploration',
